@@ -171,8 +171,11 @@ def run_family(fam, rng, tier, exe_impl, exe_model, exe_spec):
         if model is not None and model[i] != o:
             res["diffs"].append({"case": line, "impl": o, "model": model[i], "label": label,
                                  "spec_ok": (spec[i] if spec else None)})
-        if spec is not None and spec[i] == '(VS "false")':
-            res["spec_fail"].append({"case": line, "impl": o, "model": (model[i] if model else None), "label": label})
+        if spec is not None and spec[i].startswith('(VS "false'):
+            # "false" or "false:C04,C07": which property's predicate the observation falsifies
+            tag = spec[i][len('(VS "false'):-2].lstrip(":")
+            res["spec_fail"].append({"case": line, "impl": o, "model": (model[i] if model else None), "label": label,
+                                     "props": [t for t in tag.split(",") if t]})
         elif spec is not None and spec[i] not in ('(VS "true")', '(VS "n/a")'):
             res["diffs"].append({"case": line, "impl": o, "model": (model[i] if model else None), "label": label,
                                  "spec_ok": spec[i], "note": "spec evaluator error"})
@@ -221,9 +224,17 @@ def decide(cfg, tier, seed, problems, fam_results, assumptions_info, obligations
     n = 0
     # concrete failing inputs first
     concrete = []
+    other_props = {}
     for fr in fam_results:
         for sf in fr["spec_fail"]:
+            if sf.get("props") and pid not in sf["props"] and not pid.endswith("-DEV"):
+                # the observation falsifies another property's predicate: that property's own check reports it
+                for t in sf["props"]:
+                    other_props[t] = other_props.get(t, 0) + 1
+                continue
             concrete.append((fr["family"], sf))
+    if other_props:
+        log(f"note: observations falsifying other properties' predicates (reported by their own checks): {other_props}")
     concrete.sort(key=lambda x: len(x[1]["case"]))
     reported_sigs = set()
     for famname, sf in concrete:
@@ -274,6 +285,7 @@ def decide(cfg, tier, seed, problems, fam_results, assumptions_info, obligations
                       "impl_s": fr.get("impl_s"), "model_s": fr.get("model_s")} for fr in fam_results],
         "exhaustive": cfg.get("exhaustive", False),
         "known_findings_matched": sorted(reported_sigs),
+        "other_property_failures_seen": other_props,
     }
     core.write_evidence(pid, tier, seed, cov, cfg.get("assumptions", []), wall, violations=len(violations))
     for l in known_lines:
@@ -320,7 +332,7 @@ def replay(cfg, path):
         spec_line = line.replace(f'(VS "{fam}")', f'(VS "{fam}-spec")', 1)[:-2] + "; " + impl + "])"
         spec = core.run_lines(exe_model, [spec_line])[0]
     print(f"case: {line}\nimplementation: {impl}\nproperty predicate on that observation: {spec}")
-    if spec == '(VS "false")':
+    if spec.startswith('(VS "false'):
         print(f"VIOLATION property={pid} replay={path}")
         return 1
     return 0
